@@ -21,7 +21,11 @@
 (*           off       : <<ox,oy>> horizontal offset position - base point     *)
 (*           sizes     : <<<<w,l,h>>, ...>> discrete alternatives              *)
 (*           yaws, pitches, rolls : lattice values (quarter turns) of the pose  *)
-(*           facing    : heading = field at position                            *)
+(*           facing    : heading = field at position (+ deviation)              *)
+(*           dev, devs : hull <<lo, hi>> and witness values (degrees) of a      *)
+(*                       bounded random deviation added to the field heading    *)
+(*           onz, lift : placed `on` the base surface: centre = base point +    *)
+(*                       height/2 + lift                                        *)
 (*           vis       : "none" | "requireVisible" | "visible" (seen by ego)   *)
 (*           vd        : visibleDistance                                       *)
 (*   cont  container (workspace) boxes, <<>> = none                           *)
@@ -105,7 +109,10 @@ HalfExt(sz, pose) ==
       b == IF pose[2] % 2 = 1 THEN <<a[1], a[3], a[2]>> ELSE a
       c == IF pose[1] % 2 = 1 THEN <<b[2], b[1], b[3]>> ELSE b
   IN <<c[1] \div 2, c[2] \div 2, c[3] \div 2>>
-PosOf(o, p) == <<p[1] + o.off[1], p[2] + o.off[2], p[3]>>
+\* centre of the object whose base point is p: the horizontal offset, and for an object placed
+\* `on` a surface (o.onz) half its height plus the lift of its base above (below) the surface
+PosOf(o, p, sz) == <<p[1] + o.off[1], p[2] + o.off[2],
+                     p[3] + (IF o.onz THEN (sz[3] \div 2) + o.lift ELSE 0)>>
 Lo(c, h) == <<c[1] - h[1], c[2] - h[2], c[3] - h[3]>>
 Hi(c, h) == <<c[1] + h[1], c[2] + h[2], c[3] + h[3]>>
 
@@ -146,24 +153,29 @@ NormDeg(d) == IF d > 180 THEN d - 360 ELSE IF d <= -180 THEN d + 360 ELSE d
 \* the values a relative heading of ht seen from hb may take: the two signs of a
 \* half turn are not distinguished (don't-care of the normalisation)
 RHVals(hb, ht) == LET d == NormDeg(ht - hb) IN IF d = 180 THEN {-180, 180} ELSE {d}
-SatReq(r, d2, hb, ht) ==
-  IF r.q = "dist"
-  THEN Rel!SatShape(r, LAMBDA k : k > 0 /\ d2 < k * k, LAMBDA k : k >= 0 /\ d2 = k * k)
-  ELSE \A d \in RHVals(hb, ht) : Rel!SatShape(r, LAMBDA k : d < k, LAMBDA k : d = k)
+\* robustly: one degree to either side as well (headings that are a field heading plus a
+\* continuous deviation are never decided on a boundary, nor on float rounding of degrees)
+RHRobust(hb, ht) == UNION {RHVals(hb, ht + e) : e \in {-1, 0, 1}}
+SatDist(r, d2) == Rel!SatShape(r, LAMBDA k : k > 0 /\ d2 < k * k, LAMBDA k : k >= 0 /\ d2 = k * k)
+SatRH(r, hb, ht) == \A d \in RHRobust(hb, ht) : Rel!SatShape(r, LAMBDA k : d < k, LAMBDA k : d = k)
 
 \* ego at pe (heading he) sees other at po?  gap from the eye to the other's box against the
 \* visible distance; slack = 0 exact, slack = 1 robust (a quarter unit inside)
 SeesSome(q, pe, po, slack) ==
   LET e == Obj(q, 1) o == Obj(q, 2) IN
   \E n \in 1..Len(o.sizes) : \E pose \in Poses(o) :
-     LET h == HalfExt(o.sizes[n], pose) c == PosOf(o, po) IN
+     LET h == HalfExt(o.sizes[n], pose) c == PosOf(o, po, o.sizes[n]) IN
        IF slack = 0 THEN Gap2(pe, Lo(c, h), Hi(c, h)) < Sq(e.vd)
        ELSE e.vd > slack /\ Gap2(pe, Lo(c, h), Hi(c, h)) <= Sq(e.vd - slack)
 
 \* the pair (ego at we, other at wo) satisfies every hard two-object constraint
 PairOK(q, we, wo, slack) ==
-  /\ \A i \in 1..Len(Reqs(q)) : Hard(Reqs(q)[i]) =>
-        SatReq(Reqs(q)[i], Dist2(<<we[1], we[2], we[3]>>, <<wo[1], wo[2], wo[3]>>), we[4], wo[4])
+  /\ \A i \in 1..Len(Reqs(q)) : (Hard(Reqs(q)[i]) /\ Reqs(q)[i].q = "dist") =>
+        SatDist(Reqs(q)[i], Dist2(<<we[1], we[2], we[3]>>, <<wo[1], wo[2], wo[3]>>))
+  \* headings: the field heading at the position plus some witness value of the deviation
+  /\ \E de \in SeqSet(Obj(q, 1).devs) : \E do \in SeqSet(Obj(q, 2).devs) :
+        \A i \in 1..Len(Reqs(q)) : (Hard(Reqs(q)[i]) /\ Reqs(q)[i].q = "rh") =>
+           SatRH(Reqs(q)[i], we[4] + de, wo[4] + do)
   /\ (Obj(q, 2).vis # "none") => SeesSome(q, <<we[1], we[2], we[3]>>, <<wo[1], wo[2], wo[3]>>, slack)
 
 \* the object alone: some size alternative in some pose (position AND orientation) fits into
@@ -172,7 +184,7 @@ FitsAlone(q, k, p) ==
   LET o == Obj(q, k) IN
   Progs[q].cont = <<>> \/
   \E n \in 1..Len(o.sizes) : \E pose \in Poses(o) :
-     LET h == HalfExt(o.sizes[n], pose) c == PosOf(o, p) IN BoxInUnion(Lo(c, h), Hi(c, h), Progs[q].cont)
+     LET h == HalfExt(o.sizes[n], pose) c == PosOf(o, p, o.sizes[n]) IN BoxInUnion(Lo(c, h), Hi(c, h), Progs[q].cont)
 
 InBase(q, k, p) == InUnion(p, Obj(q, k).base)
 
@@ -242,9 +254,15 @@ IvT == [q \in 1..NP |-> [v \in 1..4 |->
 VisBoundT == [q \in 1..NP |-> [up \in BOOLEAN |-> VisBound(q, up)]]
 MaxDist(q, v, up) == Min2(IvT[q][v].d[2], VisBoundT[q][up])
 RHIv(q, k, v) == LET iv == IvT[q][v].rh IN IF k = 1 THEN iv ELSE <<-iv[2], -iv[1]>>
-RHCellOK(hb, ht, iv, raw) ==
-  IF raw THEN ht - hb >= iv[1] /\ ht - hb <= iv[2]
-  ELSE \E d \in RHVals(hb, ht) : d >= iv[1] /\ d <= iv[2]
+\* base cell heading hb with deviation hull bd = <<L, R>>, target cell heading ht with hull td:
+\* the relative heading ranges over [ht - hb + td.L - bd.R, ht - hb + td.R - bd.L] modulo a
+\* full turn (the documented "up to a bounded offset"); the cell is kept iff that set meets
+\* the required interval.  raw: the deviation RawHeadingDifference (no deviations only)
+NoDev(d) == d[1] = 0 /\ d[2] = 0
+RHCellOK(hb, ht, bd, td, iv, raw) ==
+  IF raw /\ NoDev(bd) /\ NoDev(td) THEN ht - hb >= iv[1] /\ ht - hb <= iv[2]
+  ELSE LET a == ht - hb + td[1] - bd[2]  b == ht - hb + td[2] - bd[1] IN
+       b - a >= 360 \/ \E t \in {-720, -360, 0, 360, 720} : a + t <= iv[2] /\ b + t >= iv[1]
 RHApplies(q) == /\ Progs[q].fam = "rh" /\ NObj(q) = 2
                 /\ \A k \in 1..2 : Obj(q, k).facing /\ ~Obj(q, k).fixed /\ ~HasOff(Obj(q, k))
 RHAppliesT == [q \in 1..NP |-> RHApplies(q)]
@@ -253,7 +271,7 @@ RHKeeps(q, k, p, v, raw, up) ==
       hb == HeadingAt(q, p) IN
   IF ~RHAppliesT[q] \/ md = INF \/ (iv[1] <= -180 /\ iv[2] >= 180) THEN TRUE
   ELSE md >= 0 /\ \E c \in 1..Len(f) :
-         /\ RHCellOK(hb, f[c][2], iv, raw)
+         /\ RHCellOK(hb, f[c][2], Obj(q, k).dev, Obj(q, Other(k)).dev, iv, raw)
          /\ Gap2(p, <<f[c][1][1], f[c][1][2], f[c][1][3]>>, <<f[c][1][4], f[c][1][5], f[c][1][6]>>) <= md * md
 \* deviation TouchCrash: feasibleRHPolygon asserts that a base cell intersected with a dilated
 \* target cell is a polygon; when the dilated cell merely touches the base cell the
@@ -267,18 +285,20 @@ TrigTouch(q) ==
      /\ \E k \in 1..2 : LET iv == RHIv(q, k, 4) IN
           /\ ~(iv[1] <= -180 /\ iv[2] >= 180)
           /\ \E b \in 1..Len(f) : \E t \in 1..Len(f) :
-                b # t /\ RHCellOK(f[b][2], f[t][2], iv, TRUE) /\ RectGap2(f[b][1], f[t][1]) = md * md
+                b # t /\ RHCellOK(f[b][2], f[t][2], Obj(q, k).dev, Obj(q, Other(k)).dev, iv, TRUE) /\ RectGap2(f[b][1], f[t][1]) = md * md
 TrigNoneq(q) == \E i \in 1..Len(Reqs(q)) : Hard(Reqs(q)[i]) /\ Rel!HasNe(Reqs(q)[i])
 TrigNonhard(q) == \E i \in 1..Len(Reqs(q)) : ~Hard(Reqs(q)[i])
-TrigUnnorm(q) == \E a \in 1..Len(Progs[q].field) : \E b \in 1..Len(Progs[q].field) :
-                    Abs(Progs[q].field[a][2] - Progs[q].field[b][2]) >= 180
+TrigUnnorm(q) == /\ \A k \in 1..NObj(q) : NoDev(Obj(q, k).dev)
+                 /\ \E a \in 1..Len(Progs[q].field) : \E b \in 1..Len(Progs[q].field) :
+                       Abs(Progs[q].field[a][2] - Progs[q].field[b][2]) >= 180
 
 \* (3) visibility: an object that must be seen by a fixed ego lies within the view
 \* distance plus its own radius of the eye
 VisApplies(q, k) == NObj(q) = 2 /\ k = 2 /\ Obj(q, 2).vis # "none" /\ Obj(q, 1).fixed
 VisIdeal(q, k, p) ==
   IF ~VisApplies(q, k) THEN TRUE
-  ELSE Dist2(PosOf(Obj(q, 2), p), Obj(q, 1).pos) <= Sq(Obj(q, 1).vd + RadUp(Obj(q, 2)) + OffNorm(Obj(q, 2)))
+  ELSE \E n \in 1..Len(Obj(q, 2).sizes) :
+         Dist2(PosOf(Obj(q, 2), p, Obj(q, 2).sizes[n]), Obj(q, 1).pos) <= Sq(Obj(q, 1).vd + RadUp(Obj(q, 2)) + OffNorm(Obj(q, 2)))
 \* deviation VisBufferRelativePitch: _bufferOverapproximate computes the number of dilation
 \* passes from the RELATIVE pitch (ceil(buffer / 0.15) + 1) while one pass dilates by the
 \* absolute pitch 0.15 * (largest extent of the view region); when that extent is below one
@@ -288,7 +308,7 @@ VisIdeal(q, k, p) ==
 \* same model applied to every view distance: known finding visibility-buffer-not-dilated.)
 VisAsImpl(q, k, p) ==
   IF ~VisApplies(q, k) THEN TRUE
-  ELSE Obj(q, 1).vd > 1 /\ Dist2(PosOf(Obj(q, 2), p), Obj(q, 1).pos) <= Sq(Obj(q, 1).vd - 1)
+  ELSE Obj(q, 1).vd > 1 /\ Dist2(PosOf(Obj(q, 2), p, Obj(q, 2).sizes[1]), Obj(q, 1).pos) <= Sq(Obj(q, 1).vd - 1)
 TrigVisbuf(q, k) == VisApplies(q, k) /\ 2 * Obj(q, 1).vd < 4
 
 \* bound extraction refuses a program ("absolute value cannot be negative") although it is
